@@ -59,13 +59,18 @@ class Run(object):
         (a failure is a bug in the specification -> machinery error).
         expect='violation': TLC must report an invariant violation (used for
         ASBUILT configs documenting an open finding)."""
-        r = tlcrun.run_tlc(module, cfg, workers=workers, timeout=timeout, extra=extra, env=env, xmx=xmx)
+        r = tlcrun.run_tlc(module, cfg, workers=workers, timeout=timeout, extra=extra, env=env, xmx=xmx,
+                           coverage=(self.tier == 'quick'))
         self.states += r['distinct']
         self.transitions += r['states']
         self.cmds.append(r['cmd'])
         rec = {'module': module, 'note': note or '', 'distinct_states': r['distinct'],
                'states_generated': r['states'], 'depth': r['depth'], 'wall_s': round(r['wall'], 2),
                'expect': expect}
+        if r.get('actions'):
+            # per-action (distinct states : states generated); an action never taken would mean vacuity
+            rec['action_coverage'] = {k: '%d:%d' % tuple(v) for k, v in r['actions'].items()}
+            rec['actions_never_taken'] = sorted(k for k, v in r['actions'].items() if v[1] == 0 and k != 'Init')
         self.mc_runs.append(rec)
         if expect == 'ok':
             if not r['ok']:
